@@ -7,6 +7,7 @@ CONSTANTS
   Fix_LinksToAll = TRUE
   Fix_ServeAll = TRUE
   Fix_PairByRequest = FALSE
+  Fix_NoPayloadCache = TRUE
 INVARIANT Pairing
 INVARIANT CompleteAtReturn
 INVARIANT CallbackAtMostOnce
